@@ -52,7 +52,16 @@ static rc::Gen<Spec> genSpec(int depth) {
             int n = *rc::gen::inRange(0, 6);
             // long flat arrays: the element count must not be confused with the nesting depth (limit 64)
             if (*rc::gen::resize(100, rc::gen::inRange(0, 8)) == 0) n = *rc::gen::elementOf(std::vector<int>{63, 64, 65, 66, 200, 1000});
-            for (int i = 0; i < n; i++) s.elems.push_back(n > 6 ? *genSpec(0) : *genSpec(depth - 1));
+            for (int i = 0; i < n; i++) {
+                if (n > 6) {            // small scalars only, so that the whole value stays far below the probe's buffer
+                    Spec e;
+                    e.tag = TAG_INT;
+                    e.bits = (uint64_t)(i * 7919);
+                    s.elems.push_back(e);
+                } else {
+                    s.elems.push_back(*genSpec(depth - 1));
+                }
+            }
         }
         return s;
     });
